@@ -102,7 +102,14 @@ class TimeoutCall(Contract):
         cbs = g.get("$done_callbacks", [])
         tasks = g.get("$tasks", [])
         if not timers and not tasks and not cbs and not hasattr(self, "fut"):
-            return                  # a suspension before anything was started: nothing can be orphaned there
+            # a suspension before anything was started: nothing can be orphaned there - unless what is awaited *is* the wrapped
+            # function, which then runs with no timer and no deadline ("otherwise with a timeout error raised at the deadline")
+            direct = aw.kind == "oracle" and aw.data.get("fterm") is not None and aw.data["fterm"].eq(self.fn)
+            st.meta.update(timeout=self.tmo)
+            st.check("P4:the-wrapped-function-only-ever-runs-under-an-armed-timer(never-awaited-directly)", z3.BoolVal(not direct))
+            if direct:
+                raise PathEnd("the function is awaited without a deadline")
+            return
         ok_shape = len(timers) == 1 and len(tasks) == 1 and len(cbs) == 2 and aw.kind == "future"
         # once the function task exists, a suspension with the wiring incomplete is a window in which cancelling the caller
         # leaves the function running unguarded (no timer, nothing that cancels it)
